@@ -27,6 +27,9 @@ from . import c13, common
 PROP = "C14"
 # Props/C14S.lean: generated control skeleton of the sequential / worker / parallel functions vs the model's
 LEAN_MODULES = ["MiciVerif.Props.C14", "MiciVerif.Props.C14S"]
+# --- B13: reading of the worker / queue part of the parallel mode (Model/SamplerParSem.lean) = stagePar
+LEAN_MODULES += ["MiciVerif.Props.C14P"]
+# --- end B13
 GENERATED = ["sampler_skeleton"]
 LEAN_EXTRA = c13.LEAN_EXTRA
 
